@@ -297,6 +297,9 @@ def c14(scn, obs):
                         bad.append(('reset-half-applied:run_no', f'reset(run_no_start_from={a["run_no_start_from"]}) returned normally but re-initialised run number {init["run_no"]}'))
                     if 'statement' in a and init.get('script_id') != a['statement']:
                         bad.append(('reset-half-applied:statement', f'reset(statement={a["statement"]}) returned normally but re-initialised with script {init.get("script_id")}'))
+                    for opt in ('trace_threads', 'trace_modules'):
+                        if a.get(opt) is not None and opt in init and init[opt] != a[opt]:
+                            bad.append((f'reset-half-applied:{opt}', f'reset({opt}={a[opt]}) returned normally but re-initialised with {opt}={init[opt]}'))
         elif k == 'hook' and o['hook'] == 'on_initialize_run':
             rn = o['run_no']
             if prev_rn is not None and rn != prev_rn + 1 and rn not in restart_values:
@@ -307,6 +310,11 @@ def c14(scn, obs):
         elif k == 'hook' and o['hook'] == 'on_start_run':
             if o.get('script_id') != displayed:
                 bad.append(('executed-not-displayed', f'run {o["run_no"]} executes script {o.get("script_id")} while the object displays {displayed}'))
+            # the tracing options the run executes with are those frozen at its initialisation
+            init = next((x for x in reversed(obs[:o['i']]) if x.get('k') == 'hook' and x['hook'] == 'on_initialize_run'), None)
+            for opt in ('trace_threads', 'trace_modules'):
+                if init is not None and opt in init and opt in o and init[opt] != o[opt]:
+                    bad.append((f'executed-not-initialised:{opt}', f'run {o["run_no"]} starts with {opt}={o[opt]} but was initialised with {init[opt]}'))
             if o.get('run_no') != prev_rn:
                 bad.append(('start-run-no-mismatch', f'on_start_run carries run {o.get("run_no")} but the last initialised run is {prev_rn}'))
             ri = [x['value'] for x in obs[:o['i']] if x.get('k') == 'pub' and x['topic'] == 'run_info']
